@@ -3,6 +3,7 @@ import ExprModel.Drv.Code
 import ExprModel.Drv.Lex
 import ExprModel.Drv.Source
 import ExprModel.Drv.Spec
+import ExprModel.Drv.Walk
 /-
 The model driver: one request per line on stdin (an S-expression `(tag arg…)`), one response per line
 on stdout.  Core-only (no Mathlib, no proof modules), so it links as a `lean_exe` and keeps building
@@ -15,7 +16,8 @@ def handlers : List (String × (List Sexp → Sexp)) :=
   Drv.codeHandlers ++
   Drv.specHandlers ++
   Drv.sourceHandlers ++
-  Drv.lexHandlers
+  Drv.lexHandlers ++
+  Drv.walkHandlers
 
 def dispatch (req : Sexp) : Sexp :=
   match req with
